@@ -228,6 +228,8 @@ def run(ctx, lean, findings):
     rng = ctx.rng
     drv = ctx.get_driver() if ctx.model_available else None
     for _ in range(ctx.budget(40, 2500)):
+        if ctx.tier == 'thorough' and not ctx.escalate and ctx.elapsed() > 380:
+            break
         rules = pg.gen_rules(rng)
         for mode in ['PARTIAL-AGGREGATIONS', 'MAXIMAL']:
             if not (mode == 'MAXIMAL' and len(rules) > 7 and ctx.tier == 'quick'):
@@ -251,7 +253,7 @@ def run(ctx, lean, findings):
         disjoint_case(ctx, case, fmt, mode, 'groups')
         if it < ctx.budget(3, 40):
             cli_case(ctx, case, fmt, mode, use_dir=bool(it % 2))
-        if ctx.tier == 'quick' and ctx.elapsed() > 80 and not ctx.escalate:
+        if not ctx.escalate and ctx.elapsed() > (80 if ctx.tier == 'quick' else 780):
             break
     # the recorded findings in their crafted minimal form
     open_ids = {f['id'] for f in findings if f.get('status') == 'open'}
